@@ -1,6 +1,95 @@
-"""C09 B layer: the generated-project shadow (shadows/project.py) - bounded, never counted as proved."""
-from shadows.project import run_shadow
+"""C09 B layers (bounded, never counted as proved):
+  1. the generated-project shadow (real CLI, fake git);
+  2. in-process: the real _update_cfg_from_vcs / get_latest_vcs_version_tag / _is_valid_version with
+     vcs.get_tags stubbed by seeded tag sets, against an independent oracle (packaging.version)."""
+import random
+import re
+
+from checks._src import SRC_ROOT, ensure_src
+from shadows.project import run_shadow, ref_key
+
+RX = re.compile(r"(\d+)\.(\d+)\.(\d+)")
+
+
+def gen_case(rng):
+    def ver():
+        return f"{rng.choice([0, 1, 2, 9, 10])}.{rng.choice([0, 1, 9, 10, 11, 99, 100])}.{rng.choice([0, 1, 9, 10])}"
+
+    tags_all = [ver() for _ in range(rng.randint(0, 8))] + rng.sample(["junk", "v1.2", "1.2", "2023.02.30", "1.2.3.4", "1.02.3", " 1.2.3", "1.2.3-rc"], rng.randint(0, 4))
+    rng.shuffle(tags_all)
+    tags_branch = [t for t in tags_all if rng.random() < 0.6]
+    return dict(current=ver(), scope=rng.choice(["default", "global", "branch"]), tags_all=tags_all, tags_branch=tags_branch)
+
+
+def check_case(case):
+    ensure_src()
+    import logging
+
+    logging.disable(logging.CRITICAL)
+    from bumpver import cli, config, vcs, version
+
+    cfg = config.Config(
+        current_version=case["current"], version_pattern="MAJOR.MINOR.PATCH", pep440_version=version.to_pep440(case["current"]), commit_message="", tag_message="",
+        tag_scope=config.TagScope(case["scope"]), pre_commit_hook="", post_commit_hook="", commit=True, tag=True, push=False, is_new_pattern=True, file_patterns={},
+    )
+    saved = vcs.get_tags
+
+    def fake(fetch, scope):
+        return list(case["tags_branch"] if scope == config.TagScope.BRANCH else case["tags_all"])
+
+    vcs.get_tags = fake
+    try:
+        try:
+            res = cli._update_cfg_from_vcs(cfg, fetch=False)
+        except Exception as e:  # noqa
+            return f"_update_cfg_from_vcs raised {type(e).__name__}: {e}"
+        listing = case["tags_branch"] if case["scope"] == "branch" else case["tags_all"]
+        valid = [t for t in listing if RX.fullmatch(t)]
+        if not valid:
+            want = case["current"]
+        else:
+            best = max(valid, key=ref_key)
+            if case["scope"] == "default":
+                want = best if ref_key(best) > ref_key(case["current"]) else case["current"]
+            else:
+                want = best
+        if ref_key(res.current_version) != ref_key(want) or (res.current_version not in valid and res.current_version != case["current"]):
+            return f"start version {res.current_version!r}, expected {want!r}"
+        # uniqueness gate: a new version equal to an existing tag is rejected when unique=True
+        for t in [x for x in case["tags_all"] if RX.fullmatch(x)][:2]:
+            if cli._is_valid_version("MAJOR.MINOR.PATCH", "0.0.0", t, unique=True):
+                return f"_is_valid_version accepts {t!r} although it is an existing tag"
+        return None
+    finally:
+        vcs.get_tags = saved
+
+
+def replay_case(case):
+    return check_case(case) is None
 
 
 def run(tier="quick", seed=0):
-    return [run_shadow("C09", tier, seed)]
+    out = [run_shadow("C09", tier, seed)]
+    rng = random.Random(seed)
+    n = 3000 if tier == "quick" else 200000
+    bad = None
+    for _ in range(n):
+        case = gen_case(rng)
+        r = check_case(case)
+        if r is not None:
+            bad = (case, r)
+            break
+    out.append(
+        dict(
+            name="C09.start_version_and_uniqueness_against_independent_oracle",
+            kind="B",
+            verdict="held" if bad is None else "refuted",
+            cases=n,
+            distinct=n,
+            bound=f"{n} seeded tag sets (0..12 tags: versions with differing digit counts, PEP 440-equal spellings, junk, calendar-impossible dates) x scope x config version; oracle = max over fully matching tags by packaging.version",
+            witness=[dict(case=bad[0], problem=bad[1])] if bad else [],
+            observed=bad[1] if bad else None,
+            python_replay=(dict(module="checks.c09", function="replay_case", args=[bad[0]]) if bad else None),
+        )
+    )
+    return out
